@@ -145,6 +145,12 @@ func C04(r *drv.Run) {
 		if replace {
 			p.Commands[0].Replace = true
 			p.Commands[0].With = []gen.WithItem{{Kind: "str", S: "<"}, {Kind: "var", S: "value"}, {Kind: "var", S: "matchNumber"}, {Kind: "str", S: ">"}}
+			if i%2 == 1 {
+				// a transform that reads the match's own number, offsets, line and column: the replacement of a match is
+				// the same under every clause that selects it
+				p.Transforms = []gen.Transform{{Name: "tn", Src: "return '#' + matchNumber + '@' + startOffset + '-' + endOffset + ':' + matchLength + ',' + lineNumber + ',' + columnNumber"}}
+				p.Commands[0].With = append(p.Commands[0].With, gen.WithItem{Kind: "var", S: "tn"})
+			}
 		}
 		sm := gen.NewSampler(rng, p, []byte("ab\n A"))
 		texts := sm.Inputs(p.Commands[0].Body, ntext-2, maxLenFor(p, 12))
